@@ -181,6 +181,17 @@ def gen(rng, tier, index, family=None, faulty_kind=None, mode=None):
         sc['base'] = base
         sc['inject'] = inject
         sc['plan'] = _fault_plan(rng, pop, faulty)
+        text_all = ' '.join(base)
+        if ' all' not in text_all and rng.random() < 0.3:
+            # the network layer refuses 1-3 consecutive requests (socket
+            # cannot be opened).  Only for scripts without broadcast
+            # commands: `set all` has no retry wrapper (DESIGN.md 11.3).
+            k0 = rng.randint(1, 12)
+            sc['plan'] = [{'kind': 'bind_error',
+                           'occurrence': list(range(k0, k0 + rng.randint(
+                               1, 3)))}]
+            sc['faulty'] = []
+            sc['inject'] = []
     else:
         sc['mode'] = mode or rng.choice(['first', 'second', 'second',
                                          'refresh', 'thread'])
@@ -195,6 +206,11 @@ def gen(rng, tier, index, family=None, faulty_kind=None, mode=None):
             reqs += ['MultiZoneGetColorZones'] * 3
         if kind == 'matrix':
             reqs += ['GetDeviceChain'] * 3
+        if sc['mode'] in ('second', 'refresh') and rng.random() < 0.5:
+            healthy = [i for i in range(n) if i not in faulty]
+            sc['move'] = [rng.choice(healthy),
+                          rng.choice(populations.GROUPS + ['Attic']),
+                          rng.choice(populations.LOCATIONS + ['Shed'])]
         if sc['mode'] == 'thread':
             t0 = rng.choice([0.0, 3.0, 6.0])
             sc['plan'] = [{'kind': 'silent', 'device': f, 'from': t0,
@@ -308,6 +324,7 @@ def _simulate(sc, chooser, faults, with_inject):
 
     def run_script(sim, net, text):
         net.counts.clear()
+        net.binds = 0
         obs['mark'] = sim.evno
         job = ScriptJob.from_string(text)
         obs['compiled'] = job.program is not None
@@ -348,6 +365,12 @@ def _simulate(sc, chooser, faults, with_inject):
             if mode in ('second', 'refresh'):
                 before = world.snapshot_directory(ls)
                 fails = ls.get_failed_discovers()
+                mv = sc.get('move')
+                if mv is not None:
+                    # a healthy bulb changed group/location meanwhile: a
+                    # discovery that fails must not record even that
+                    b = net.bulbs[mv[0]]
+                    b.group, b.location = mv[1], mv[2]
                 net.plan = list(plan)
                 net.counts.clear()
                 try:
@@ -492,6 +515,11 @@ def execute(scenario, chooser):
     rec_run = world.wire_records(net, mark_f, SCRIPT_TYPES)
     sent = sc['sentinel']
     tail = [r for r in rec_run[sent] if r[0] == 'LightSetColor']
+    if sc.get('move') is not None and any(r is False for r in run['disc']):
+        # the directory legitimately still shows the old memberships
+        res['sample'] = {'family': 'discovery', 'mode': sc.get('mode'),
+                         'plan': sc['plan'], 'move': sc['move']}
+        return res
     known = run.get('known')
     comparable = None
     if known is not None and set(known) != set(ref.get('known', [])):
@@ -502,6 +530,9 @@ def execute(scenario, chooser):
                       if b['label'] in known}
     if comparable is not None and sent not in comparable:
         pass
+    elif any(r['kind'] == 'bind_error' for r in sc['plan']):
+        pass        # the refused request may be the sentinel itself; the
+        #             datagram count below catches an aborted script
     elif not tail or dict(tail[-1][1])['color'][3] != 9999:
         violation('script-aborted', 'the final (sentinel) command never '
                   'reached {}: {}'.format(sc['population'][sent]['label'],
@@ -516,7 +547,39 @@ def execute(scenario, chooser):
                'mismatch_stmt'] = 1
         if addressed is not None:
             excluded.add(labels[addressed])
+    bind_plan = [r for r in sc['plan'] if r['kind'] == 'bind_error']
+    if bind_plan:
+        # fewer than 3 refusals in a row: the retry succeeds and nothing may
+        # differ; exactly 3: one request is abandoned, so exactly one
+        # datagram may be missing somewhere - and nothing else
+        allowed = 1 if len(bind_plan[0]['occurrence']) >= 3 else 0
+        missing = 0
+        for i, b in enumerate(sc['population']):
+            a, r_ = list(rec_run[i]), list(rec_ref[i])
+            if a == r_:
+                continue
+            # is `a` equal to r_ with one element removed?
+            ok = len(a) == len(r_) - 1 and any(
+                r_[:k] + r_[k + 1:] == a for k in range(len(r_)))
+            if ok:
+                missing += 1
+            else:
+                missing += 99
+        if missing > allowed:
+            violation('request-failure-disturbed-others',
+                      'with {} consecutive refused requests the devices '
+                      'received {} instead of {} datagrams; a refused request '
+                      'may cost at most its own command'.format(
+                          len(bind_plan[0]['occurrence']),
+                          [len(rec_run[i]) for i in range(len(
+                              sc['population']))],
+                          [len(rec_ref[i]) for i in range(len(
+                              sc['population']))]))
+        if net.fired.get('bind_error'):
+            probes['request_refused_by_network_layer'] = 1
     for i, b in enumerate(sc['population']):
+        if bind_plan:
+            break
         if i in excluded or (comparable is not None and i not in comparable):
             continue
         if rec_ref[i] != rec_run[i]:
@@ -572,10 +635,10 @@ def execute(scenario, chooser):
         probes['retry_exhausted'] = 1
     # abandoned requests leave a log entry (device that never answers)
     if sc['family'] == 'script':
-        softened = {r['device'] for r in sc['plan']
+        softened = {r.get('device') for r in sc['plan']
                     if r['kind'] in ('delay', 'duplicate')}
         never = [r['device'] for r in sc['plan']
-                 if r['device'] not in softened and (
+                 if 'device' in r and r['device'] not in softened and (
                      (r['kind'] == 'silent' and r.get('to', 0) >= 1e9)
                      or (r.get('request') == '*'
                          and r.get('occurrence') == '*'))]
